@@ -152,6 +152,11 @@ def renderings(key, secret, mask):
          "['%s', '--opt', '%s']" % (k, m)),
         ('key --flag value', 'tool %s --opt %s end' % (k, s),
          'tool %s --opt %s end' % (k, m)),
+        # flag names with an underscore / mixed case
+        ("'key', '--flag', 'value'", "['%s', '--new_Value', '%s']" % (k, s),
+         "['%s', '--new_Value', '%s']" % (k, m)),
+        ('key --flag value', 'tool %s --new_Value %s end' % (k, s),
+         'tool %s --new_Value %s end' % (k, m)),
     ]
     return out
 
@@ -398,7 +403,8 @@ def _has_dotstar(body):
 
 
 SECRETS = ('abc', 'p@ss^w0rd$', 'x', 'S3cr3t!', 'a.b*c+d?', '(x)[y]{z}',
-           'back\\slash', 'ünï', 'tab|pipe&amp;', '%s%d', 'a:b;c,d')
+           'back\\slash', 'ünï', 'tab|pipe&amp;', '%s%d', 'a:b;c,d', '-abc',
+           '--x')
 SPACED = ('two words', ' lead', 'trail ')
 
 
@@ -433,7 +439,14 @@ def _pipeline(ctx, keys):
                     for rname, msg, want in renderings(sp, s, mask):
                         if rname == '--key value' and '=' in s:
                             continue
-                        got = check('rendering', rname, msg, want)
+                        cons = rname
+                        if rname == '--key value' and s.startswith('-') \
+                                and any(k2 != key and k2 in key
+                                        for k2 in keys):
+                            # its own construct: see known finding D8
+                            cons = rname + ' (dash-leading secret under ' \
+                                'a key that contains a shorter key)'
+                        got = check('rendering', cons, msg, want)
                         # idempotence
                         again = pipe.run(got, mask)
                         if again != got:
